@@ -1,70 +1,42 @@
-"""Correspondence harness for the positional stores (ReservableReqStore,
-ReservablePriorityReqStore, ReservablePriorityReqFilterStore) against coq/theories/Stores/StoreP.v.
-
-The harness itself is the scheduler: it holds one real store under a real simpy.Environment and
-executes an op list from outside any process (env._active_proc is set to the calling "process"
-object, so the ownership checks are real); STEP / ADV ops pop kernel events.  Every harness op is
-mapped to the model ops it amounts to (an API call is one model op; a kernel pop is Tick and/or
-Retrig), and after every harness op the canonical state line of both sides is compared."""
+"""Correspondence harness for the bound-item stores (BufferStore FIFO/LIFO, FleetStore) against
+coq/theories/Stores/StoreB.v.  Same scheme as storep.py: the harness is the scheduler, every kernel
+pop is translated into the internal model ops it amounts to (here: `READY i` for every item that
+moved from items to ready_items during the pop, in the order in which they were appended)."""
 import random, simpy
 from . import common
 
-KINDS = {"req": ("base.reservable_req_store", "ReservableReqStore"),
-         "prio": ("base.reservable_priority_req_store", "ReservablePriorityReqStore"),
-         "filter": ("base.reservable_priority_req_filter_store", "ReservablePriorityReqFilterStore")}
-FOREIGN = 1000  # token ids >= FOREIGN denote events that do not belong to the store
+KINDS = {"buffer": ("base.buffer_store", "BufferStore"),
+         "fleet": ("base.fleet_store", "FleetStore")}
+FOREIGN = 1000
 
 
-class It:
-    __slots__ = ("i", "put_time")
+class Obj:
+    __slots__ = ("i",)
 
     def __init__(self, i):
         self.i = i
-        self.put_time = None
 
     def __repr__(self):
-        return "It%d" % self.i
+        return "O%d" % self.i
 
 
-def item_id(x):
-    return x.i if isinstance(x, It) else x
-
-
-def mkfilter(k, r):
-    if k == 0:
-        return None
-    return lambda x, k=k, r=r: x.i % k == r
+def oid(x):
+    if isinstance(x, tuple):
+        x = x[0]
+    return x.i if isinstance(x, Obj) else -1
 
 
 class Impl:
-    """one real store driven op by op"""
-
-    def __init__(self, kind, cap, tdelay):
+    def __init__(self, kind, mode, cap, fdelay=4, transit=1):
         mod, cls = KINDS[kind]
         m = common.load(mod)
-        self.kind = kind
+        self.kind, self.mode, self.cap = kind, mode, cap
         self.env = simpy.Environment()
-        if kind == "filter":
-            self.st = getattr(m, cls)(self.env, capacity=cap, trigger_delay=tdelay)
+        if kind == "buffer":
+            self.st = getattr(m, cls)(self.env, capacity=cap, mode=mode)
         else:
-            self.st = getattr(m, cls)(self.env, capacity=cap)
-        self.callers = {}
-        self.toks = []          # token id -> event
-        self.tokid = {}         # id(event) -> token id
-        self.foreign = {}
-        self.retrigs = 0
-        st = self.st
-        if kind == "filter":
-            # count top-level calls of the timer callback (bound method captured at put time)
-            orig = st._trigger_reserve_get
-            outer = self
-
-            def wrapped(ev, _orig=orig):
-                if outer.in_step:
-                    outer.retrigs += 1
-                return _orig(ev)
-            st._trigger_reserve_get = wrapped
-        self.in_step = False
+            self.st = getattr(m, cls)(self.env, capacity=cap, delay=fdelay, transit_delay=transit)
+        self.callers, self.toks, self.tokid, self.foreign = {}, [], {}, {}
 
     def caller(self, p):
         return self.callers.setdefault(p, ("proc", p))
@@ -79,14 +51,15 @@ class Impl:
 
     def state(self):
         st = self.st
-        its = list(st.items)
         extra = ""
-        if [id(e) for e in st.reservations_get] != [id(e) for e in st.reserved_events]:
-            extra = "|reserved_events!=reservations_get:" + self.ids(st.reserved_events)
-        pt = ",".join(str(int(x.put_time)) if isinstance(x, It) and x.put_time is not None else "0" for x in its)
-        return "|".join([",".join(str(item_id(x)) for x in its), self.ids(st.reserve_put_queue),
-                         self.ids(st.reservations_put), self.ids(st.reserve_get_queue),
-                         self.ids(st.reservations_get), pt]) + extra
+        if [id(e) for e in st.reservations_get] != [id(e) for e in st.reserved_events] or \
+                len(st.reserved_items) != len(st.reserved_events):
+            extra = "|reserved_events!=reservations_get:%s/%d" % (self.ids(st.reserved_events), len(st.reserved_items))
+        getres = ",".join("%d:%d" % (self.tokid.get(id(e), -1), oid(it))
+                          for e, it in zip(st.reserved_events, st.reserved_items))
+        return "|".join([",".join(str(oid(x)) for x in st.items), ",".join(str(oid(x)) for x in st.ready_items),
+                         self.ids(st.reserve_put_queue), self.ids(st.reservations_put),
+                         self.ids(st.reserve_get_queue), getres]) + extra
 
     def trig_order(self, before):
         """tokens newly triggered, in the order in which they were triggered (= kernel schedule order)"""
@@ -96,34 +69,27 @@ class Impl:
         return ",".join(str(i) for i in new)
 
     def api(self, op):
-        """returns (result string, model op words)"""
         st, env = self.st, self.env
         k = op[0]
         before = [e.triggered for e in self.toks]
         try:
             if k in ("RPUT", "RGET"):
                 env._active_proc = self.caller(op[1])
-                if k == "RPUT":
-                    e = st.reserve_put() if self.kind == "req" else st.reserve_put(op[2])
-                elif self.kind == "req":
-                    e = st.reserve_get()
-                elif self.kind == "prio":
-                    e = st.reserve_get(op[2])
-                else:
-                    e = st.reserve_get(op[2], mkfilter(op[3], op[4]))
+                f = st.reserve_put if k == "RPUT" else st.reserve_get
+                e = f(op[2]) if self.kind == "fleet" else f()
                 self.tokid[id(e)] = len(self.toks)
                 self.toks.append(e)
                 before.append(False)
                 res = "tok:%d" % (len(self.toks) - 1)
             elif k == "PUT":
                 env._active_proc = self.caller(op[1])
-                obj = It(op[3]) if self.kind == "filter" else op[3]
-                r = st.put(self.ev(op[2]), obj)
+                o = Obj(op[3])
+                r = st.put(self.ev(op[2]), (o, op[4]) if self.kind == "buffer" else o)
                 res = "ok" if r else "ret:%r" % (r,)
             elif k == "GET":
                 env._active_proc = self.caller(op[1])
                 r = st.get(self.ev(op[2]))
-                res = "item:%s" % item_id(r)
+                res = "item:%d" % oid(r)
             elif k == "CPUT":
                 env._active_proc = self.caller(0)
                 r = st.reserve_put_cancel(self.ev(op[1]))
@@ -142,33 +108,26 @@ class Impl:
         return res, trig
 
     def pop(self):
-        """process one kernel event; returns model ops (TICK/RETRIG) it amounts to"""
-        env = self.env
-        t0 = env.now
-        self.retrigs = 0
-        self.in_step = True
+        """one kernel event; returns (model ops, newly triggered tokens, error)"""
+        st = self.st
+        ready_before = [id(x) for x in st.ready_items]
         before = [e.triggered for e in self.toks]
         err = None
         try:
-            env.step()
+            self.env.step()
         except Exception as ex:  # noqa
             err = "err:" + type(ex).__name__
-        self.in_step = False
-        mops = []
-        if env.now != t0:
-            mops.append(("TICK", int(env.now - t0)))
-        mops += [("RETRIG",)] * self.retrigs
+        seen = set(ready_before)
+        mops = [("READY", oid(x)) for x in st.ready_items if id(x) not in seen]
         trig = self.trig_order(before)
         return mops, trig, err
 
 
-def run_impl(kind, cap, tdelay, ops):
-    """Execute harness ops on the implementation.
-    Returns (rows, mops): rows[i] = (result, trig, state) after harness op i;
-    mops[i] = list of model op word-tuples for harness op i."""
-    im = Impl(kind, cap, tdelay)
+def run_impl(case):
+    im = Impl(case["kind"], case["mode"], case["cap"], case.get("fdelay", 4), case.get("transit", 1))
     rows, mops = [], []
-    for op in ops:
+    for op in case["ops"]:
+        op = tuple(op)
         k = op[0]
         if k == "STEP":
             if im.env.peek() == im.env.now:
@@ -181,27 +140,24 @@ def run_impl(kind, cap, tdelay, ops):
         elif k == "ADV":
             target = im.env.now + op[1]
             m, trigs, err = [], [], None
-            while err is None and im.env.peek() < target:
+            while err is None and im.env.peek() <= target:
                 mm, tg, err = im.pop()
                 m += mm
                 if tg:
                     trigs.append(tg)
             if err is None:
-                t0 = im.env.now
-                im.env.run(until=target)
-                if target != t0:
-                    m.append(("TICK", int(target - t0)))
+                im.env.run(until=target) if target > im.env.now else None
             rows.append((err or "ok", ",".join(trigs), im.state()))
             mops.append(m)
         else:
             res, trig = im.api(op)
             rows.append((res, trig, im.state()))
-            mops.append([op])
+            mops.append([op[:4] if k == "PUT" else op])
     return rows, mops, im
 
 
-def model_text(kind, cap, tdelay, mops):
-    out = ["CASE storep %s %d %d" % (kind, cap, tdelay)]
+def model_text(case, mops):
+    out = ["CASE storeb %s %s %d" % (case["kind"], case["mode"], case["cap"])]
     for grp in mops:
         for m in grp:
             out.append(" ".join(str(x) for x in m))
@@ -210,7 +166,6 @@ def model_text(kind, cap, tdelay, mops):
 
 
 def model_rows(lines, mops):
-    """regroup model lines per harness op: (result, trig, state)"""
     rows, i, last_state = [], 0, "|||||"
     for grp in mops:
         if not grp:
@@ -220,7 +175,7 @@ def model_rows(lines, mops):
         for _ in grp:
             f = lines[i].split("|")
             i += 1
-            res = f[0] if len(grp) == 1 else "ok"
+            res = f[0] if len(grp) == 1 else ("ok" if f[0] == "ok" and res in (None, "ok") else f[0])
             if f[1]:
                 trigs.append(f[1])
             last_state = "|".join(f[2:])
@@ -228,55 +183,46 @@ def model_rows(lines, mops):
     return rows
 
 
-# ------------------------------------------------------------------ generation
+FIELDS = ("items", "ready", "putq", "putres", "getq", "getres")
+
 
 def gen_case(rng, kind, n_ops, malformed=False):
-    """Online generation: the next op is chosen by looking at the implementation's state, so
-    sequences are mostly valid (reserve -> put/get with the granted token, cancels of pending and
-    granted tokens, full/empty boundaries); `malformed` adds foreign / reused / wrong-owner tokens."""
     cap = rng.choice([1, 1, 2, 2, 3, 4, 6])
-    tdelay = rng.choice([0, 0, 1, 2, 3]) if kind == "filter" else 0
-    im = Impl(kind, cap, tdelay)
-    ops, nprocs, nextitem = [], rng.choice([1, 2, 3, 4]), [0]
+    mode = rng.choice(["FIFO", "LIFO"]) if kind == "buffer" else "FIFO"
+    case = dict(model="storeb", kind=kind, mode=mode, cap=cap,
+                fdelay=rng.choice([1, 2, 4, 7]), transit=rng.choice([0, 0, 1, 2]))
+    im = Impl(kind, mode, cap, case["fdelay"], case["transit"])
+    ops, nprocs, nextitem, used = [], rng.choice([1, 2, 3, 4]), [0], []
     prios = rng.choice([[0], [0, 1], [-2, 0, 0, 3], [5, 5, 1], [-1, -1, -1, 2, 0]])
-    used = []
+    delays = rng.choice([[0], [0, 1], [1, 2, 3], [0, 0, 5], [2]])
 
     def tokens_in(lst):
         return [im.tokid[id(e)] for e in lst if id(e) in im.tokid]
 
     for _ in range(n_ops):
         st = im.st
-        granted_put = tokens_in(st.reservations_put)
-        granted_get = tokens_in(st.reservations_get)
+        granted_put, granted_get = tokens_in(st.reservations_put), tokens_in(st.reservations_get)
         pend_put, pend_get = tokens_in(st.reserve_put_queue), tokens_in(st.reserve_get_queue)
-        choices = [("RPUT", 5), ("RGET", 5)]
+        choices = [("RPUT", 5), ("RGET", 5), ("STEP", 4), ("ADV", 3)]
         if granted_put:
-            choices.append(("PUT", 8))
+            choices.append(("PUT", 9))
         if granted_get:
-            choices.append(("GET", 6))
+            choices.append(("GET", 5))
         if granted_put or pend_put:
             choices.append(("CPUT", 2))
         if granted_get or pend_get:
-            choices.append(("CGET", 3))
-        choices.append(("STEP", 3 if kind == "filter" else 1))
-        choices.append(("ADV", 2 if kind == "filter" else 1))
+            choices.append(("CGET", 4))
         if malformed:
             choices.append(("BAD", 6))
         k = rng.choices([c for c, _ in choices], [w for _, w in choices])[0]
         if k == "RPUT":
             op = ("RPUT", rng.randrange(nprocs), rng.choice(prios))
         elif k == "RGET":
-            if kind == "filter":
-                fk = rng.choice([0, 0, 1, 2, 2, 3])
-                fr = rng.randrange(fk) if fk else 0
-            else:
-                fk, fr = 1, 0
-            op = ("RGET", rng.randrange(nprocs), rng.choice(prios), fk, fr)
+            op = ("RGET", rng.randrange(nprocs), rng.choice(prios))
         elif k == "PUT":
             t = rng.choice(granted_put)
             nextitem[0] += 1
-            iid = nextitem[0] if kind == "filter" or rng.random() < 0.8 else rng.randrange(1, 4)
-            op = ("PUT", im.toks[t].requesting_process[1], t, iid)
+            op = ("PUT", im.toks[t].requesting_process[1], t, nextitem[0], rng.choice(delays))
         elif k == "GET":
             t = rng.choice(granted_get)
             op = ("GET", im.toks[t].requesting_process[1], t)
@@ -288,7 +234,7 @@ def gen_case(rng, kind, n_ops, malformed=False):
             op = ("STEP",)
         elif k == "ADV":
             op = ("ADV", rng.choice([1, 1, 2, 3, 5]))
-        else:  # BAD
+        else:
             every = list(range(len(im.toks)))
             bad = rng.choice(["foreign", "reuse", "wrongowner", "pending", "cancelled", "crossside"])
             t = FOREIGN + rng.randrange(3)
@@ -298,7 +244,7 @@ def gen_case(rng, kind, n_ops, malformed=False):
             kk = rng.choice(["PUT", "GET", "CPUT", "CGET"])
             if kk == "PUT":
                 nextitem[0] += 1
-                op = ("PUT", p, t, nextitem[0])
+                op = ("PUT", p, t, nextitem[0], rng.choice(delays))
             elif kk == "GET":
                 op = ("GET", p, t)
             else:
@@ -306,18 +252,19 @@ def gen_case(rng, kind, n_ops, malformed=False):
         if op[0] in ("PUT", "GET", "CPUT", "CGET"):
             used.append(op[2] if op[0] in ("PUT", "GET") else op[1])
         ops.append(op)
-        # execute on the live implementation so that the next choice sees the new state
         if op[0] == "STEP":
             if im.env.peek() == im.env.now:
                 im.pop()
         elif op[0] == "ADV":
             target = im.env.now + op[1]
             try:
-                while im.env.peek() < target:
+                while im.env.peek() <= target:
                     im.env.step()
-                im.env.run(until=target)
+                if target > im.env.now:
+                    im.env.run(until=target)
             except Exception:  # noqa
                 break
         else:
             im.api(op)
-    return dict(model="storep", kind=kind, cap=cap, tdelay=tdelay, ops=[list(o) for o in ops])
+    case["ops"] = [list(o) for o in ops]
+    return case
